@@ -972,11 +972,13 @@ package server
 //@     ghost delG := put(delG, predID, del)
 //@     ghost prevPredG := predID
 //@   at $1 call append#1 before
+//@     assert [C03:incoming-results-flushed-only-when-the-newest-scanned-key-of-the-related-entity-is-live] delG[prevPredG] != 1
 //@     assert [C03:incoming-result-comes-from-a-live-reference-key] delG[prevResult.PredicateID] != 1
 //@     assert [C03,C06,C07:incoming-result-passed-the-dataset-time-and-predicate-filters] !(has(s.deletedDatasets, prevResult.DatasetID) && s.deletedDatasets[prevResult.DatasetID]) && (len(from.Datasets) == 0 || (exists k int :: 0 <= k && k < len(from.Datasets) && from.Datasets[k] == prevResult.DatasetID)) && prevResult.Time <= from.At && (from.Predicate == 0 || from.Predicate == prevResult.PredicateID)
 //@   at $1 call append#2 before
 //@     assert [C03,C06,C07:incoming-result-passed-the-dataset-time-and-predicate-filters] !(has(s.deletedDatasets, dsResult.DatasetID) && s.deletedDatasets[dsResult.DatasetID]) && (len(from.Datasets) == 0 || (exists k int :: 0 <= k && k < len(from.Datasets) && from.Datasets[k] == dsResult.DatasetID)) && dsResult.Time <= from.At && (from.Predicate == 0 || from.Predicate == dsResult.PredicateID)
 //@   at $1 call append#3 before
+//@     assert [C03:incoming-results-flushed-only-when-the-newest-scanned-key-of-the-related-entity-is-live] delG[prevPredG] != 1
 //@     assert [C03:incoming-result-comes-from-a-live-reference-key] delG[prevResult.PredicateID] != 1
 //@     assert [C03,C06,C07:incoming-result-passed-the-dataset-time-and-predicate-filters] !(has(s.deletedDatasets, prevResult.DatasetID) && s.deletedDatasets[prevResult.DatasetID]) && (len(from.Datasets) == 0 || (exists k int :: 0 <= k && k < len(from.Datasets) && from.Datasets[k] == prevResult.DatasetID)) && prevResult.Time <= from.At && (from.Predicate == 0 || from.Predicate == prevResult.PredicateID)
 //@   at $1 call append#4 before
